@@ -29,16 +29,19 @@ def run(ctx):
     pdir, plans = ctx.tlc_plans(fam, "Shard_Gen", "Shard_Gen.cfg", num=ctx.q(120, 1500), depth=16)
     # 3. execute against the real code
     binary = ctx.go_build("c17")
-    rt, mp = ctx.path("route.ndjson"), ctx.path("maps.ndjson")
-    out = ctx.harness(binary, ["-plans", pdir, "-out", rt, "-maps", mp, "-seed", ctx.seed,
+    rt, mp, rc = ctx.path("route.ndjson"), ctx.path("maps.ndjson"), ctx.path("races.ndjson")
+    out = ctx.harness(binary, ["-plans", pdir, "-out", rt, "-maps", mp, "-races", rc, "-seed", ctx.seed,
+                               "-nrace", ctx.q(4000, 80000), "-nracekeep", ctx.q(900, 20000),
                                "-nrand", ctx.q(16, 120), "-nextra", ctx.q(2, 24),
                                "-hist", ctx.q(150, 4000), "-maxops", ctx.q(60, 200)],
-                      traces=[rt, mp])
+                      traces=[rt, mp, rc])
     # 4. validate what the real code did
     route = ctx.load_traces(rt)
     maps = ctx.load_traces(mp)
+    races = ctx.load_traces(rc)
     rj = ctx.validate(fam, "Shard_Trace", "Shard_Trace.cfg", route, label="routing", chunk=12000)
     rj += ctx.validate(fam, "Shard_Trace", "Shard_Trace.cfg", maps, label="containers", chunk=30000)
+    rj += ctx.validate(fam, "Shard_Trace", "Shard_Trace.cfg", races, label="races", chunk=20000)
     ctx.judge(rj)
     ctx.extra["plans"] = len(plans)
     ctx.extra["routing_traces"] = len(route)
@@ -46,6 +49,7 @@ def run(ctx):
     ctx.extra["shard_counts"] = sorted({t[0]["shards"] for t in route})
     ctx.extra["container_traces"] = len(maps)
     ctx.extra["container_variants"] = sorted({t[0]["variant"] for t in maps})
+    ctx.extra["race_rounds_with_overlap"] = len(races)
     ctx.extra["harness_summary"] = out.strip().split("\n")[-1][:200]
     ctx.assumptions += [
         "the contract is the property by the letter: keyed routes (SimpleIndex / XHashIndex) are judged on "
@@ -55,6 +59,8 @@ def run(ctx):
         "of a trace, which Shard_MC_route shows to be exactly 'some partition into n consecutive intervals'",
         "equal []byte keys = equal contents; HitGroup-only keys are not sent through the xxhash route "
         "(remap.ToBytes does not support them); shard count 0 is outside the property",
+        "race rounds: inv/res sequence numbers are drawn outside the containers (before the call, after its "
+        "return), so the logged order is consistent with real time; TLC searches for a linearization",
         "wide LRU facades run with a capacity no history reaches (capacity per shard is C04's subject); "
         "sharded key lockers / semaphore maps are exercised in C02 / C01",
     ]
@@ -64,8 +70,12 @@ def run(ctx):
              "through SearchIndex, the same patterns cast to all ten integer types, HitGroup/Bs implementers, "
              "strings / byte slices (empty, block-size, binary) through SimpleIndex and XHashIndex, half asked "
              "twice, a quarter of all calls through a fresh ReMap; containers: plans = TLC simulation of Shard.tla (distinct by "
-             "content) under 10 concrete key schemes x variants, + seeded random histories over mixed-type keys",
+             "content) under 10 concrete key schemes x variants, + seeded random histories over mixed-type keys; "
+             "race rounds: fresh sharded container (1..3 shards, 6 variants), 2..4 goroutines released by a spin "
+             "barrier, 1..3 calls each on 2..4 distinct keys, kept only if calls overlapped, closed by a sequential "
+             "Get+Exist probe of every key",
         explanation="ShardAlg.tla (NewReMap table, sort.Search bisection, clamp, modulo) model-checked for all "
                     "n<=256 and all 8-bit hashes against the contract of Shard.tla; every index returned by the real "
                     "remap must satisfy the same contract (range, stability per key, order-compatibility of all "
-                    "(hash,index) observations of SearchIndex); every reply of the real sharded containers must equal the plain map's")
+                    "(hash,index) observations of SearchIndex); every reply of the real sharded containers must equal the plain map's, "
+                    "for overlapping callers under some linearization consistent with real time")
